@@ -34,30 +34,36 @@ Zero4 == <<0, 0, 0, 0>>
 
 (* Ref: decoder.  st = "eod" | "noeod" | "bad"; data = bytes of the complete  *)
 (* groups decoded before the point of failure.                                *)
-RECURSIVE RefDec(_, _, _, _, _)
-RefDec(s, i, k, v, acc) ==       \* k digits of the current group collected in v
-  IF i > Len(s) THEN [st |-> "noeod", data |-> acc]
-  ELSE LET c == s[i] IN
-    IF c \in WhiteSpace THEN RefDec(s, i + 1, k, v, acc)
+\* one character: q = [st, i, k, v, acc] -- k digits of the current group
+\* collected in v; st = "run" while decoding
+RefStep(s, q) ==
+  IF q.i > Len(s) THEN [q EXCEPT !.st = "noeod"]
+  ELSE LET c == s[q.i] IN
+    IF c \in WhiteSpace THEN [q EXCEPT !.i = @ + 1]
     ELSE IF IsDigit(c) THEN
-      LET m == MulAdd(v, c - 33) IN
-      IF m[1] # 0 THEN [st |-> "bad", data |-> acc]                 \* above 2^32 - 1
-      ELSE IF k = 4 THEN RefDec(s, i + 1, 0, Zero4, acc \o m[2])
-      ELSE RefDec(s, i + 1, k + 1, m[2], acc)
-    ELSE IF c = Zed /\ k = 0 THEN RefDec(s, i + 1, 0, Zero4, acc \o Zero4)
+      LET m == MulAdd(q.v, c - 33) IN
+      IF m[1] # 0 THEN [q EXCEPT !.st = "bad"]                         \* above 2^32 - 1
+      ELSE IF q.k = 4 THEN [q EXCEPT !.i = @ + 1, !.k = 0, !.v = Zero4, !.acc = @ \o m[2]]
+      ELSE [q EXCEPT !.i = @ + 1, !.k = @ + 1, !.v = m[2]]
+    ELSE IF c = Zed /\ q.k = 0 THEN [q EXCEPT !.i = @ + 1, !.acc = @ \o Zero4]
     ELSE IF c = Tilde THEN
-      \* EOD: '>' must follow (white space in between is tolerated by no rule: "~>" is one marker)
-      (IF i + 1 > Len(s) \/ s[i + 1] # Gt THEN [st |-> "bad", data |-> acc]
-       ELSE IF k = 0 THEN [st |-> "eod", data |-> acc]
-       ELSE IF k = 1 THEN [st |-> "bad", data |-> acc]
+      \* EOD: '>' must follow at once ("~>" is one marker)
+      (IF q.i + 1 > Len(s) \/ s[q.i + 1] # Gt THEN [q EXCEPT !.st = "bad"]
+       ELSE IF q.k = 0 THEN [q EXCEPT !.st = "eod"]
+       ELSE IF q.k = 1 THEN [q EXCEPT !.st = "bad"]
        ELSE LET RECURSIVE Pad(_, _)
                 Pad(j, w) == IF j = 5 THEN <<0, w>> ELSE
                              LET mm == MulAdd(w, 84) IN IF mm[1] # 0 THEN <<1, w>> ELSE Pad(j + 1, mm[2])
-                p == Pad(k, v)
-            IN IF p[1] # 0 THEN [st |-> "bad", data |-> acc]
-               ELSE [st |-> "eod", data |-> acc \o SubSeq(p[2], 1, k - 1)])
-    ELSE [st |-> "bad", data |-> acc]
-RefDecode(s) == RefDec(s, 1, 0, Zero4, <<>>)
+                p == Pad(q.k, q.v)
+            IN IF p[1] # 0 THEN [q EXCEPT !.st = "bad"]
+               ELSE [q EXCEPT !.st = "eod", !.acc = @ \o SubSeq(p[2], 1, q.k - 1)])
+    ELSE [q EXCEPT !.st = "bad"]
+\* iterate until the state leaves "run" (two levels: shallow evaluation stack in TLC)
+RECURSIVE RefSteps(_, _, _)
+RefSteps(s, q, n) == IF n = 0 \/ q.st # "run" THEN q ELSE RefSteps(s, RefStep(s, q), n - 1)
+RECURSIVE RefLoop(_, _)
+RefLoop(s, q) == IF q.st # "run" THEN q ELSE RefLoop(s, RefSteps(s, q, 64))
+RefDecode(s) == LET q == RefLoop(s, [st |-> "run", i |-> 1, k |-> 0, v |-> Zero4, acc |-> <<>>]) IN [st |-> q.st, data |-> q.acc]
 RefIsEncodingOf(enc, data) == RefDecode(enc) = [st |-> "eod", data |-> data]
 
 \* the five digits of a four byte group, most significant first
